@@ -1217,6 +1217,16 @@ func main() {
 		if err != nil {
 			engine.HarnessError("cannot load replay: %v", err)
 		}
+		var dc dupCase
+		if json.Unmarshal(rp.Case, &dc) == nil && dc.Part == "dup" {
+			for i := 0; i < 5; i++ {
+				if class, detail := judgeDup(dc); class != "" {
+					rep.Fail(engine.Failure{Class: class, Detail: detail, Case: dc}, 0)
+				}
+			}
+			rep.Eval(5)
+			rep.Finish()
+		}
 		var c Case
 		if err := json.Unmarshal(rp.Case, &c); err != nil {
 			engine.HarnessError("bad case: %v", err)
@@ -1229,6 +1239,7 @@ func main() {
 		rep.Eval(5)
 		rep.Finish()
 	}
+	runDup()
 	tasks := buildTasks(rep.Thorough())
 	// Execution order (matters only when the deadline stops the walk): the cheap 64-entry
 	// configuration in full first, then the block-state families from the smallest to the largest.
